@@ -343,6 +343,8 @@ pub fn run(code: &[u8], cfg: &RefCfg) -> RefRun {
                                                 all_known = false;
                                                 precise = false;
                                             } else {
+                                                // a zero word of never-written memory is part of the hashed data
+                                                from.push(Val::k(W::ZERO));
                                                 words.push(W::ZERO)
                                             }
                                         }
